@@ -138,6 +138,7 @@ fn parse_cfg(c: &Value) -> (SrvCfg, Value) {
             limit: p["limit"].as_u64().unwrap_or(8192) as usize,
             embedded_ack: p["embedded_ack"].as_u64().unwrap_or(0),
             file_ack: p["file_ack"].as_u64().unwrap_or(0),
+            vary: p["vary"].as_bool().unwrap_or(false),
         };
     }
     (cfg, c.clone())
@@ -387,6 +388,19 @@ pub fn run_one(run: &Value) -> Vec<Value> {
     let batches = run["batches"].as_array().unwrap_or(&empty).clone();
     let run_id = run["run"].clone();
     let mm = m.clone();
+    #[cfg(mpd_client_verif)]
+    {
+        // hook events of the code under test go into the same totally ordered log
+        let hm = m.clone();
+        mpd_client::protocol::verif::set_sink(Some(Box::new(move |ev, fields| {
+            let mut s = hm.lock().unwrap();
+            let mut v = json!({"e": "hook", "h": ev, "some": -1, "ok": -1, "in_progress": -1});
+            for (k, x) in fields {
+                v[*k] = json!(*x);
+            }
+            s.log.push(v);
+        })));
+    }
     rt.block_on(async move {
         {
             let mut s = mm.lock().unwrap();
@@ -399,8 +413,9 @@ pub fn run_one(run: &Value) -> Vec<Value> {
                 "has_srv_pw": scfg.password.is_some(), "srv_pw": scfg.password.clone().unwrap_or_default(),
                 "auth": scfg.auth, "greeting": greeting, "nh": ncallers + if observer_handle { 1 } else { 0 },
                 "pic": {"embedded": sz(&pic.embedded), "file": sz(&pic.file), "hasMime": pic.mime.is_some(), "mime": pic.mime.clone().unwrap_or_default(),
-                        "limit": pic.limit, "embedded_ack": pic.embedded_ack, "file_ack": pic.file_ack}}));
+                        "limit": pic.limit, "embedded_ack": pic.embedded_ack, "file_ack": pic.file_ack, "vary": pic.vary}}));
             s.max_read = run["cfg"]["max_read"].as_u64().unwrap_or(0) as usize;
+            s.max_write = run["cfg"]["max_write"].as_u64().unwrap_or(0) as usize;
             let gl = Line { t: "greet", k: vec![], v: greeting.clone(), a: 0, b: 0, bytes: greeting.clone() };
             if !greeting.is_empty() {
                 s.emit("greet", vec![gl]);
@@ -525,6 +540,8 @@ pub fn run_one(run: &Value) -> Vec<Value> {
         let dropped = mm.lock().unwrap().dropped;
         log(&mm, json!({"e": "end", "unresolved": unresolved2, "ev_ended": d.ev_ended, "io_dropped": dropped, "panics": crate::PANICS.load(std::sync::atomic::Ordering::SeqCst) - panics0}));
     });
+    #[cfg(mpd_client_verif)]
+    mpd_client::protocol::verif::set_sink(None);
     let out = std::mem::take(&mut m.lock().unwrap().log);
     out
 }
